@@ -5,6 +5,8 @@ import AaVerif.Filter
 import AaVerif.Generated.Dists
 import AaVerif.Generated.AaTables
 import AaVerif.Aa.Wire
+import AaVerif.Logs
+import AaVerif.Generated.LogRx
 open Proto
 
 /-- model of a builder by name, when it is one of the literal replace lists -/
@@ -102,11 +104,80 @@ def suiteCmpStr (f : List String) : String :=
   | [] => "ok\t0"
   | _ => "err\tbad-op"
 
+def rxOfLit (s : List Char) : Rx.Re :=
+  s.foldr (fun c acc => .seq (if c == '.' then .cls .any else .chr c) acc) .eps
+
+/-- `isAppArmorLog` for a plain filter (letters, digits, `_ - / .`); other filters are not modelled -/
+def isLogRx (filter : List Char) : Option (List Char → Bool) :=
+  let tmpl := match Generated.isAppArmorLog with
+    | (f, re, _) :: _ => (f, re)
+    | [] => (({} : Rx.Flags), Rx.Re.eps)
+  if filter.isEmpty then some (fun l => Rx.isMatch tmpl.1 tmpl.2 l)
+  else if filter.all (fun c => c.isAlphanum || c == '_' || c == '-' || c == '/' || c == '.') then
+    let anyS := Rx.Re.star (.cls .any) true
+    let p := rxOfLit filter
+    let q := Rx.Re.chr '"'
+    let branch (k : String) := Rx.Re.seq (rxOfLit (k.toList ++ ['=', '"'])) (.seq p (.seq anyS q))
+    let re := Rx.Re.seq tmpl.2 (.seq anyS (.seq (.chr ' ') (.alt (branch "profile") (branch "label"))))
+    some (fun l => Rx.isMatch {} re l)
+  else none
+
+def cleanLine (l : List Char) : List Char := Rx.ReplList.replace Generated.cleanLogs (Logs.decodeHex l)
+
+def suiteGetLogs (f : List String) : String :=
+  match f with
+  | [filter, text] =>
+    match isLogRx (unesc filter) with
+    | some isLog => "ok\t" ++ escList (Logs.getLogs (fun l => isLog (Logs.decodeHex l)) cleanLine (Logs.scanLines (unesc text)))
+    | none => "unmodelled"
+  | [filter] =>
+    match isLogRx (unesc filter) with
+    | some isLog => "ok\t" ++ escList (Logs.getLogs isLog cleanLine (Logs.scanLines []))
+    | none => "unmodelled"
+  | _ => "err\tbad-op"
+
+def resolveV (v : List Char) : List Char := Rx.ReplList.replace Generated.resolveLogs v
+
+def encLog (l : List (List Char × List Char)) : String :=
+  let sorted := l.toArray.qsort (fun a b => a.1 < b.1) |>.toList
+  String.intercalate ";" (sorted.map (fun (k, v) => esc k ++ "=" ++ esc v))
+
+def suiteLogNew (f : List String) : String :=
+  let text := match f with | [t] => unesc t | _ => []
+  match isLogRx [] with
+  | none => "err"
+  | some isLog =>
+    let lines := Logs.getLogs (fun l => isLog (Logs.decodeHex l)) cleanLine (Logs.scanLines text)
+    let (q, recs) := lines.foldl (fun (st : Bool × List String) l =>
+      let (q, r) := Logs.parseRecord resolveV l
+      (q, st.2 ++ [encLog r])) (false, [])
+    "ok\t" ++ String.intercalate "|" recs ++ "\t" ++ b2s q
+
+def suiteRx (f : List String) : String :=
+  match f with
+  | [name, text] =>
+    let t := unesc text
+    match name with
+    | "cleanlogs" => "ok\t" ++ esc (Rx.ReplList.replace Generated.cleanLogs t)
+    | "resolvelogs" => "ok\t" ++ esc (resolveV t)
+    | "filter" => "ok\t" ++ esc (Rx.ReplList.replace Generated.utilFilter t)
+    | "decodehex" => "ok\t" ++ esc (Logs.decodeHex t)
+    | _ => "err"
+  | [name] => suiteRx' name
+  | _ => "err\tbad-op"
+where suiteRx' (name : String) : String :=
+  match name with
+  | "cleanlogs" | "resolvelogs" | "filter" | "decodehex" => "ok\t"
+  | _ => "err"
+
 def main (args : List String) : IO Unit := do
   match args with
   | ["builder"] => serve suiteBuilder
   | ["setflags"] => serve suiteSetflags
   | ["filter"] => serve suiteFilter
+  | ["getlogs"] => serve suiteGetLogs
+  | ["lognew"] => serve suiteLogNew
+  | ["rx"] => serve suiteRx
   | ["compare"] => serve suiteCompare
   | ["merge"] => serve suiteMerge
   | ["sort"] => serve suiteSort
